@@ -262,3 +262,54 @@ Proof.
       destruct (map fst (filter (fun e => match_filter (filter_authoritative true) (snd e) now) m)); [contradiction|reflexivity].
   - apply in_map_iff. exists (a, Auth). split; [reflexivity|]. apply filter_In. split; [exact He|reflexivity].
 Qed.
+
+(* ---------- whatever holds of every record handed to the store holds of every record it holds ---------- *)
+Definition op_record (o : sop) : option rr :=
+  match o with OpAddAuth r | OpAddCached r _ => Some r | OpRemove _ | OpClear => None end.
+Definition all_records (P : rr -> Prop) (st : store) : Prop := forall k m e, In (k, m) st -> In e m -> P (fst e).
+
+Lemma set_node_in st k m k' m' : In (k', m') (set_node st k m) -> (k' = k /\ m' = m) \/ In (k', m') st.
+Proof.
+  induction st as [|[k0 m0] r IH]; cbn [set_node]; intros H.
+  - destruct H as [H|[]]. injection H as <- <-. left. tauto.
+  - destruct (bytes_eqb k0 k).
+    + destruct H as [H|H]; [injection H as <- <-; left; tauto|right; right; exact H].
+    + destruct H as [H|H]; [right; left; exact H|]. destruct (IH H) as [E|E]; [left; exact E|right; right; exact E].
+Qed.
+Lemma map_insert_fst m r v e : In e (map_insert m r v) -> (exists e0, In e0 m /\ fst e = fst e0) \/ fst e = r.
+Proof. intros H. destruct (map_insert_keys _ _ _ _ H) as [H1|[H1 _]]; [left; exact H1|right; exact H1]. Qed.
+
+Lemma apply_op_records P st o : all_records P st -> (forall r, op_record o = Some r -> P r) -> all_records P (apply_op st o).
+Proof.
+  intros Hst Hop. destruct o as [a|a now|a|]; cbn [apply_op].
+  - unfold add_authoritative. destruct (find_node st (get_key (rname a))) as [m0|] eqn:E; intros k m e Hin He;
+      destruct (set_node_in _ _ _ _ _ Hin) as [ [-> ->] | Hold ]; try (eapply Hst; eassumption).
+    + destruct (map_insert_fst _ _ _ _ He) as [ (e0 & H0 & ->) | -> ]; [eapply Hst; [apply find_node_in; exact E|exact H0]|apply Hop; reflexivity].
+    + destruct He as [<-|[]]. apply Hop. reflexivity.
+  - unfold add_cached. destruct (find_node st (get_key (rname a))) as [m0|] eqn:E.
+    + destruct (map_get m0 a) as [[|x]|]; try exact Hst; intros k m e Hin He;
+        (destruct (set_node_in _ _ _ _ _ Hin) as [ [-> ->] | Hold ]; [|eapply Hst; eassumption]);
+        (destruct (map_insert_fst _ _ _ _ He) as [ (e0 & H0 & ->) | -> ]; [eapply Hst; [apply find_node_in; exact E|exact H0]|apply Hop; reflexivity]).
+    + intros k m e Hin He. destruct (set_node_in _ _ _ _ _ Hin) as [ [-> ->] | Hold ]; [|eapply Hst; eassumption].
+      destruct He as [<-|[]]. apply Hop. reflexivity.
+  - unfold remove_record. destruct (find_node st (get_key (rname a))) as [m0|] eqn:E; [|exact Hst].
+    intros k m e Hin He. destruct (set_node_in _ _ _ _ _ Hin) as [ [-> ->] | Hold ]; [|eapply Hst; eassumption].
+    unfold map_remove in He. apply filter_In in He. eapply Hst; [apply find_node_in; exact E|tauto].
+  - intros k m e [].
+Qed.
+Theorem reachable_records : forall (P : rr -> Prop) ops, (forall o r, In o ops -> op_record o = Some r -> P r) ->
+  all_records P (fold_left apply_op ops []).
+Proof.
+  intros P ops H.
+  assert (G : forall ops st, all_records P st -> (forall o r, In o ops -> op_record o = Some r -> P r) -> all_records P (fold_left apply_op ops st)).
+  { clear. induction ops as [|o ops IH]; intros st Hst Hops; [exact Hst|]. cbn [fold_left]. apply IH.
+    - apply apply_op_records; [exact Hst|]. intros r Hr. apply (Hops o r); [left; reflexivity|exact Hr].
+    - intros o' r Ho' Hr. apply (Hops o' r); [right; exact Ho'|exact Hr]. }
+  apply G; [intros k m e []|exact H].
+Qed.
+(* the two side conditions used by C13 / C14 hold in every store built from records with DNS-sized labels / well-formed records *)
+Corollary reachable_names_short : forall ops, (forall o r, In o ops -> op_record o = Some r -> short_labels (rname r)) ->
+  names_short (fold_left apply_op ops []).
+Proof. intros ops H k m e Hin He. exact (reachable_records (fun r => short_labels (rname r)) ops H k m e Hin He). Qed.
+Lemma wf_labels_short ls : wf_labels ls -> short_labels ls.
+Proof. unfold wf_labels, short_labels. intros H. eapply Forall_impl; [|exact H]. intros l Hl. cbn beta in Hl. lia. Qed.
